@@ -18,10 +18,14 @@ RULE = ('random directory trees (depth <=4, 1-30 files, duplicate basenames, dir
         'judged by a reference written from docs/mibdump.rst: a generous *allowed* variant set '
         '(soundness: never an unrelated file, exact decoded content and mtime of that very file) and '
         'a conservative *promised* set (completeness: not-found only if no promised variant exists); '
-        'plus the URL -> reader table; non-trivial = hit below the root directory or inside a nested '
+        'plus the URL -> reader table; plus the HTTP reader built from an http:// URL against a loopback web '
+        'site (documents answering 200/403/410/500, Last-Modified present, absent or malformed; same '
+        'allowed/promised reference, and a server-side log showing that only variants of the requested '
+        'name were ever asked for); non-trivial = hit below the root directory or inside a nested '
         'archive; distinct = hash(tree, options, name)')
 ASSUMPTIONS = ['files are non-empty and far below maxMibSize', 'ambiguous URLs (file://x.zip, zip://dir) '
-               'are recorded, not judged', 'network readers are only constructed, never used']
+               'are recorded, not judged', 'the HTTP reader is exercised against a loopback site under TZ=UTC '
+               '(plain http only); the FTP reader is only constructed, never used']
 
 EXTS = ['', '.txt', '.mib', '.my', '.TXT', '.MIB', '.MY']
 STEMS = ['FOO', 'Bar', 'ietf-x', 'A1', 'IF', 'snmpV2']
@@ -32,11 +36,13 @@ def plan(tier, seed):
         return {'n': 24000, 'budget_s': 40, 'min_evals': 30000,
                 'floors': {'lookups': 30000, 'hits_checked': 8000, 'notfound_checked': 8000,
                            'hits_in_subdir': 800, 'hits_in_nested_zip': 800, 'index_hits': 200,
-                           'urls_judged': 2000}}
+                           'urls_judged': 2000, 'http_hits_checked': 300, 'http_notfound_checked': 300,
+                           'http_requests_seen': 8000}}
     return {'n': 400000, 'budget_s': 600, 'min_evals': 100000,
             'floors': {'lookups': 100000, 'hits_checked': 30000, 'notfound_checked': 30000,
                        'hits_in_subdir': 3000, 'hits_in_nested_zip': 3000, 'index_hits': 800,
-                       'urls_judged': 5000}}
+                       'urls_judged': 5000, 'http_hits_checked': 1000, 'http_notfound_checked': 1000,
+                       'http_requests_seen': 30000}}
 
 
 # ------------------------------------------------------------------------------ reference
@@ -283,6 +289,8 @@ def run_case(idx, rng, tier, res):
         return case_urls(idx, rng, res)
     if idx % 20 == 8:
         return case_damaged(idx, rng, res)
+    if idx % 37 == 17:      # 37 is coprime to the number of shards: spread over all workers
+        return case_http(idx, rng, res)
     from pysmi.reader import FileReader, ZipReader
     from pysmi import error
     base = tempfile.mkdtemp(prefix='verif-c14-', dir=env.scratch_root())
@@ -429,6 +437,133 @@ def run_case(idx, rng, tier, res):
                           'lookups': names}
     finally:
         shutil.rmtree(base, ignore_errors=True)
+
+
+def case_http(idx, rng, res):
+    """the HTTP reader against a loopback web site (vlib/httpsite.py): a flat set of documents named like
+    the files of the tree generator, some answering 403/500, some without or with a malformed
+    Last-Modified header; the reader is built from an http:// URL (with and without the @mib@ mark).
+    Client side: a hit is a document whose name is an allowed variant, answered 200, with exactly its
+    decoded bytes (and, when the header is well formed, its time stamp; otherwise the time of the
+    call); not-found only if no promised variant answers 200.  Server side: every location the reader
+    asked for is the template filled with an allowed variant of the requested name - nothing else is
+    ever requested."""
+    import calendar
+    from vlib import httpsite
+    from pysmi.reader import getReadersFromUrls, HttpReader
+    from pysmi import error
+    port = httpsite.port()
+    if port is None:
+        res.count('http_site_unavailable')
+        res.evals = 0
+        res.sig = 'nohttp'
+        return
+    for k in ('http_proxy', 'HTTP_PROXY', 'all_proxy', 'ALL_PROXY'):
+        os.environ.pop(k, None)
+    os.environ['no_proxy'] = '*'
+    os.environ['TZ'] = 'UTC'     # Last-Modified is GMT; the reader converts it with the local zone's rules
+    time.tzset()
+    dirs, files = gen_tree(rng)
+    o = dict((k, rng.random() < 0.75) for k in ('originalMatching', 'uppercaseMatching',
+                                                 'lowcaseMatching', 'fuzzyMatching'))
+    magic = rng.random() < 0.6
+    prefix = '/' + rng.choice(['mibs', 'a/b', 'site-%d' % rng.randint(0, 99)]) + '/'
+    suffix = rng.choice(['', '', '.txt', '/raw']) if magic else ''
+    table = {}
+    docs = {}
+    for d, nm, data, mt in files:
+        if nm in docs:
+            continue
+        r = rng.random()
+        status = 200 if r < 0.8 else rng.choice([403, 500, 410])
+        hk = rng.random()
+        if hk < 0.7:
+            lastmod = time.strftime('%a, %d %b %Y %H:%M:%S GMT', time.gmtime(mt))
+            stamp = mt
+        elif hk < 0.85:
+            lastmod, stamp = None, None
+        else:
+            lastmod, stamp = rng.choice(['yesterday', '2020-01-01T00:00:00Z', '']), None
+        docs[nm] = (status, data, stamp)
+        table[prefix + nm + suffix] = (status, data, lastmod)
+    httpsite.publish(table)
+    url = 'http://127.0.0.1:%d%s%s' % (port, prefix, ('@mib@' + suffix) if magic else '')
+    rs = getReadersFromUrls(url, **o)
+    if len(rs) != 1 or type(rs[0]) is not HttpReader:
+        res.violation('url_reader_kind', 'URL %r mapped to %r, expected HttpReader' % (url, rs), replay={'url': url})
+        return
+    reader = rs[0]
+    names = lookups(rng, files)[:4]
+    res.evals = len(names)
+    seen_requests = 0
+    for name in names:
+        res.count('lookups')
+        res.count('http_lookups')
+        cell = {'reader': 'http', 'url': url, 'name': name, 'options': o,
+                'documents': sorted('%s:%d' % (k, v[0]) for k, v in docs.items())[:40]}
+        allow = allowed(name, o, EXTS)
+        promise = promised(name, o, EXTS)
+        t0 = time.time()
+        try:
+            info, text = reader.getData(name)
+            got = 'hit'
+        except error.PySmiReaderFileNotFoundError:
+            got = 'notfound'
+        except Exception as exc:
+            res.violation('reader_exception', 'http reader raised %s: %s for %r (options %r)' % (
+                type(exc).__name__, exc, name, o), replay=cell, exc=type(exc).__name__, kind='http')
+            continue
+        t1 = time.time()
+        log = httpsite.requests()
+        asked = [p for p, _h in log[seen_requests:]]
+        seen_requests = len(log)
+        res.count('http_requests_seen', len(asked))
+        for p in asked:
+            ok = p.startswith(prefix) and p.endswith(suffix) and \
+                p[len(prefix):len(p) - len(suffix) if suffix else len(p)] in allow
+            if not ok:
+                res.violation('unrelated_location_requested', 'asked %r: the reader requested %r, which is not the '
+                              'template %r filled with a variant of that name' % (name, p, url), replay=cell, kind='http')
+                break
+        if got == 'hit':
+            res.count('hits_checked')
+            res.count('http_hits_checked')
+            doc = docs.get(info.file)
+            if info.file not in allow:
+                res.violation('unrelated_file', 'asked %r got document %r which is no variant of it (%r)' % (
+                    name, info.file, cell), replay=cell, kind='http')
+            elif doc is None or doc[0] != 200:
+                res.violation('file_not_in_tree', 'asked %r got %r which the site does not serve (%r)' % (
+                    name, info.file, doc and doc[0]), replay=cell, kind='http')
+            elif doc[1].decode('utf-8', 'ignore') != text:
+                res.violation('content_differs', 'asked %r: content of %r is not the decoded body of that '
+                              'document' % (name, info.file), replay=cell, kind='http')
+            elif doc[2] is not None and int(info.mtime) != int(doc[2]):
+                res.violation('mtime_differs', 'asked %r: mtime %r, Last-Modified says %r' % (
+                    name, info.mtime, doc[2]), replay=cell, kind='http')
+            elif doc[2] is None and not (t0 - 2 <= info.mtime <= t1 + 2):
+                res.violation('mtime_differs', 'asked %r: no usable Last-Modified, mtime %r is not the time of the '
+                              'call (%r)' % (name, info.mtime, t0), replay=cell, kind='http')
+            else:
+                res.nontrivial = True
+                if doc[2] is None:
+                    res.count('http_hits_without_usable_timestamp')
+                if prefix + info.file + suffix not in asked:
+                    res.violation('content_differs', 'asked %r: %r handed back, but the site never saw a request '
+                                  'for it' % (name, info.file), replay=cell, kind='http')
+            res.cell('http:hit')
+        else:
+            res.count('notfound_checked')
+            res.count('http_notfound_checked')
+            present = sorted(k for k, v in docs.items() if k in promise and v[0] == 200)
+            if present:
+                res.violation('variant_not_found', 'asked %r (options %r): not found although the site serves %s (%r)' % (
+                    name, o, present, cell), replay=cell, kind='http', fuzzy=bool(o['fuzzyMatching']),
+                    lowcase=bool(o['lowcaseMatching']), anybase=bool(base_names(name, o)))
+            if any(v[0] != 200 for k, v in docs.items() if k in promise):
+                res.count('http_refused_variants_skipped')
+            res.cell('http:notfound')
+    res.sig = harness.stable_hash(['http', magic, suffix, sorted(o.items()), sorted(docs)])
 
 
 def case_urls(idx, rng, res):
